@@ -12,9 +12,11 @@ def minimise(dec, name, assumptions, goal, inputs, vals, extra, rounds=4):
     cap; returns the smallest witness found"""
     size = inputs.size_term()
     best = vals
+    if dec.tier == "quick":
+        rounds = min(rounds, 2)
     for r in range(rounds):
         cur = eval_bv(size, inputs.subst_pairs(best))
-        if cur == 0:
+        if cur <= 3:
             break
         v, model, _ = dec.decide("%s#min%d" % (name, r), list(assumptions) + list(extra) + [z3.ULT(size, bv(cur, 16))],
                                  goal, second="minimise", timeout=20)
@@ -65,7 +67,8 @@ def hunt(dec, res, prop, name, assumptions, goal, shapes, inputs, replay_fn, rol
             except ValueError:
                 continue
         if shape is not None and "%s/%s" % (role_prefix, shape[0]) not in roles:
-            vals = minimise(dec, "%s#%d" % (name, k - 1), list(assumptions) + excl, goal, inputs, vals, [shape[1]])
+            higher = [Not(p2) for sn2, p2 in shapes[:[x[0] for x in shapes].index(shape[0])]]
+            vals = minimise(dec, "%s#%d" % (name, k - 1), list(assumptions) + excl, goal, inputs, vals, [shape[1]] + higher)
             pairs = inputs.subst_pairs(vals)
         rep = replay_fn(vals)
         if not rep.get("reproduced"):
@@ -179,8 +182,9 @@ def hunt_multi(dec, res, prop, name, assumptions, clauses, shapes, inputs, repla
                 if c == failing:
                     break
                 earlier.append(Or(t, *excl[c]))
+            higher = [Not(p2) for sn2, p2 in shapes[:[x[0] for x in shapes].index(shape[0])]]
             vals = minimise(dec, "%s#%d" % (name, k - 1), list(assumptions) + earlier, Or(fgoal, *excl[failing]), inputs, vals,
-                            [shape[1]])
+                            [shape[1]] + higher)
             pairs = inputs.subst_pairs(vals)
         rep = replay_fn(vals)
         if failing not in rep.get("violated", []):
